@@ -393,6 +393,7 @@ func (c *Cluster) runProxyEngine() {
 
 	nOps := r.Range(20, 120)
 	var submitted [][]byte
+	var wantMem [][]byte
 	for i := 0; i < nOps && c.failed("C20") == nil; i++ {
 		// fault plan for this call
 		fault := ""
@@ -507,9 +508,22 @@ func (c *Cluster) runProxyEngine() {
 				mn.refuse["node"] = r.Intn(3)
 			}
 			before := len(gotSock)
-			err := bp.SubmitTx(tx)
-			ip.SubmitTx(tx)
+			want := append([]byte{}, tx...)
+			// the application serialises into a scratch buffer that it reuses afterwards
+			buf1 := append(make([]byte, 0, len(tx)+8), tx...)
+			buf2 := append(make([]byte, 0, len(tx)+8), tx...)
+			err := bp.SubmitTx(buf1)
+			ip.SubmitTx(buf2)
 			synctest.Wait()
+			for k := range buf1 {
+				buf1[k] = 0xEE
+			}
+			for k := range buf2 {
+				buf2[k] = 0xEE
+			}
+			buf2 = append(buf2[:0], []byte("reused!!")...)
+			wantMem = append(wantMem, want)
+			tx = want
 			if err == nil {
 				submitted = append(submitted, tx)
 				if len(gotSock) == before {
@@ -543,6 +557,33 @@ func (c *Cluster) runProxyEngine() {
 	}
 	if len(gotMem) > 0 {
 		c.stats.probe("c20-inmem-submissions")
+	}
+	// the in-memory proxy: exactly the submitted transactions, in order, byte-identical
+	// (also after the application reused its buffers)
+	if c.failed("C20") == nil {
+		if len(gotMem) != len(wantMem) {
+			c.violate("C20", "submit", "inmem-submission-count", "%d transactions were submitted through the in-memory proxy, %d reached the node", len(wantMem), len(gotMem))
+		} else {
+			for i := range wantMem {
+				if !bytes.Equal(gotMem[i], wantMem[i]) {
+					c.violate("C20", "submit", "submitted-transaction-altered", "transaction %d submitted through the in-memory proxy (%d bytes) is held by the node with different bytes after the application reused its buffer", i, len(wantMem[i]))
+					break
+				}
+			}
+		}
+		for i, g := range gotSock {
+			found := false
+			for _, w := range wantMem {
+				if bytes.Equal(g, w) {
+					found = true
+					break
+				}
+			}
+			if !found {
+				c.violate("C20", "submit", "submitted-transaction-altered", "transaction %d that reached the node through the socket proxy matches nothing that was submitted", i)
+				break
+			}
+		}
 	}
 	// the in-memory proxy delivers exactly what was submitted, in order
 	c.stats.Probes["c20-transactions-through-socket"] += len(gotSock)
